@@ -22,10 +22,19 @@ def run(ctx):
         "Obs lines group the cut patterns that produced byte-identical echo replies (loss-free compression)",
     ]
     # ---- Leg D
-    w = 6
-    for proto in ("Http", "Scgi", "Fcgi"):
-        ctx.design("Input/Input.tla", "Input%s_%s.cfg" % (proto, "quick" if q else "full"), workers=w, timeout=1500, heap="12g",
-                   note="SegInv, CrossInv, Progress over all cuts of all short requests (%s mechanism)" % proto)
+    w = 6 if q else 16
+    if q:
+        runs = [("InputHttp_quick.cfg", "http: quick request family, read sizes 1..3 and 'all available', keep-alive pairs"),
+                ("InputScgi_quick.cfg", "scgi: read sizes 1..3 and 'all available'"),
+                ("InputFcgi_quick.cfg", "fcgi: 6 record-boundary/padding/length-form combinations per request")]
+    else:
+        runs = [("InputHttp_full.cfg", "http: full request family x folding, read sizes 1..6 and 'all available', keep-alive pairs"),
+                ("InputHttp_allcuts.cfg", "http: quick family, EVERY read size at every position"),
+                ("InputScgi_full.cfg", "scgi: EVERY read size at every position"),
+                ("InputFcgi_full.cfg", "fcgi: padding 0..7 x 9 kinds of PARAMS/STDIN record boundaries x both length forms, read sizes 1..4 and all"),
+                ("InputFcgi_cache.cfg", "fcgi: 24-byte read-ahead cache (compaction and growth paths), EVERY read size")]
+    for cfg, note in runs:
+        ctx.design("Input/Input.tla", cfg, workers=w, timeout=1700, heap="12g", note="SegInv, NotStuck, CrossInv; " + note)
     # ---- Leg B
     exe = ctx.harness(*inputlib.HARNESS)
     nsh = 4 if q else 8
